@@ -105,18 +105,201 @@ class Recorder:
         model.belief_propagation = bp
 
 
-def run_local(dom, meas, total, oracle, iters, record=False):
+def digest(obj):
+    """a hashable, content-only digest of an oracle's message state (dicts / tuples of Factors)"""
+    if isinstance(obj, dict):
+        return tuple(sorted((repr(k), digest(v)) for k, v in obj.items()))
+    if isinstance(obj, (tuple, list)):
+        return tuple(digest(v) for v in obj)
+    if hasattr(obj, 'values') and hasattr(obj, 'domain'):
+        return (tuple(obj.domain.attrs), np.asarray(obj.values, dtype=float).tobytes())
+    return repr(obj)
+
+
+class Control:
+    """records what mirror_descent_auto does: activations (with their step size), oracle calls (potentials, message state before the call),
+    loss evaluations, feasibility evaluations — the observable side of the control structure modelled in PGM/Model/Local.lean"""
+
+    def __init__(self):
+        self.attempts = []
+        self.damping0 = None
+        self.in_bp = False
+
+    def install(self, eng):
+        ctl = self
+        inner_mda = eng.mirror_descent_auto
+        inner_loss = eng._marginal_loss
+
+        def mda(alpha, iters, callback=None):
+            ctl.attempts.append({'alpha': float(alpha), 'loss': [], 'dL': [], 'feas': [], 'theta': [], 'msgs': [], 'mu': []})
+            return inner_mda(alpha, iters, callback)
+
+        def loss(mu, metric=None):
+            l, dL = inner_loss(mu, metric)
+            if ctl.attempts:
+                ctl.attempts[-1]['loss'].append(float(l))
+                ctl.attempts[-1]['dL'].append(dL)
+            return l, dL
+        eng.mirror_descent_auto = mda
+        eng._marginal_loss = loss
+
+    def wrap_model(self, model):
+        ctl = self
+        inner_bp = model.belief_propagation
+        inner_pf = model.primal_feasibility
+        self.damping0 = getattr(model, 'damping', None)
+
+        def bp(potentials, callback=None):
+            if ctl.attempts:
+                a = ctl.attempts[-1]
+                a['theta'].append(potentials)
+                a['msgs'].append(digest(model.messages))
+            ctl.in_bp = True
+            try:
+                mu = inner_bp(potentials, callback)
+            finally:
+                ctl.in_bp = False
+            if ctl.attempts:
+                ctl.attempts[-1]['mu'].append(mu)
+            return mu
+
+        def pf(mu):
+            v = inner_pf(mu)
+            if ctl.attempts and not ctl.in_bp:      # the convex oracle calls it too (is_converged)
+                ctl.attempts[-1]['feas'].append(float(v))
+            return v
+        model.belief_propagation = bp
+        model.primal_feasibility = pf
+
+
+def same_vec(a, b):
+    return set(a.keys()) == set(b.keys()) and all(np.array_equal(np.asarray(a[k].values), np.asarray(b[k].values)) for k in a.keys())
+
+
+def check_control(res, drv, out, iters, viol_cap, canon):
+    """the recorded control decisions against PGM.Local.mda run on the recorded losses / feasibilities (exact: every quantity the
+    decisions depend on is a recorded double)"""
+    ctl = out.get('ctl')
+    if drv is None or ctl is None or not ctl.attempts:
+        return
+    model = out.get('model')
+    att = ctl.attempts
+    has = ctl.damping0 is not None
+    rp = {'request': canon, 'stream': 'C18.mda_trace'}
+    recs = []
+    for a in att:
+        # the first evaluation (l0, line 90) repeats on the same iterate at t = 0
+        if len(a['loss']) >= 2 and a['loss'][0] != a['loss'][1] and not (math.isnan(a['loss'][0]) and math.isnan(a['loss'][1])):
+            viol_cap('correspondence', f'the loss of the starting iterate is evaluated twice with different results {a["loss"][:2]}', rp, 'local:ctl:l0')
+            return
+        recs.append({'alpha': enc_f(a['alpha']), 'losses': [enc_f(v) for v in a['loss'][1:]], 'feas': [enc_f(v) for v in a['feas']]})
+    base = {'iters': iters, 'has_damping': has, 'damping0': enc_f(ctl.damping0 if has else 0.0), 'attempts': recs}
+    raised = out['exc'][0] if out['exc'] else None
+    if raised not in (None, 'RecursionError'):
+        return
+    res.count('control traces replayed in Lean (mda_trace)')
+    # (a) every attempt starts from the saved potentials and messages
+    for i, a in enumerate(att):
+        if not a['theta']:
+            continue
+        if not same_vec(a['theta'][0], att[0]['theta'][0]):
+            viol_cap('failing-input', f'activation {i} of mirror_descent_auto does not start from the saved potentials', rp, 'local:ctl:theta0')
+            return
+        if a['msgs'][0] != att[0]['msgs'][0]:
+            viol_cap('failing-input', f'activation {i} of mirror_descent_auto does not start from the saved messages (restart without restoring the oracle state)',
+                     rp, 'local:ctl:messages0')
+            return
+        if a['alpha'] != att[0]['alpha'] / 2.0 ** i:
+            viol_cap('correspondence', f'activation {i} has step size {a["alpha"]!r}, model: {att[0]["alpha"] / 2.0 ** i!r}', rp, 'local:ctl:alpha')
+            return
+    # (b) per activation: where the model restarts
+    for i, a in enumerate(att[:-1] if raised is None else att):
+        if raised == 'RecursionError' and i == len(att) - 1:
+            break                       # the last activation was cut short by the interpreter
+        r = drv.one(dict(base, op='mda_attempt', alpha=enc_f(a['alpha'])))
+        if not r['ok']:
+            viol_cap('correspondence', f'mda_attempt driver error {r["err"]}', rp, 'local:driver')
+            return
+        o = r['out']
+        n_loop = len(a['loss']) - 1
+        if o['outcome'] != 'restart' or o['t'] + 1 != n_loop:
+            viol_cap('correspondence', f'activation {i} (alpha {a["alpha"]}): implementation restarted after {n_loop} iterations, model: {o["outcome"]} '
+                     f'{o.get("t")}', dict(rp, attempt=i), 'local:ctl:restart-point')
+            return
+        res.count('restarted activations checked')
+    # (c) the whole call
+    r = drv.one(dict(base, op='mda_trace', alpha0=enc_f(att[0]['alpha']), fuel=len(att) if raised is None else len(att) - 1))
+    if not r['ok']:
+        viol_cap('correspondence', f'mda_trace driver error {r["err"]}', rp, 'local:driver')
+        return
+    o = r['out']
+    if raised == 'RecursionError':
+        if o['outcome'] != 'recursion':
+            viol_cap('correspondence', f'implementation raised RecursionError after {len(att)} activations; model outcome {o["outcome"]}', rp, 'local:ctl:outcome')
+        return
+    if o['outcome'] != 'ok':
+        viol_cap('correspondence', f'implementation returned after {len(att)} activations; model outcome {o["outcome"]}', rp, 'local:ctl:outcome')
+        return
+    a = att[-1]
+    log = o['log']
+    if o['restarts'] != len(att) - 1 or dec_f(o['alpha']) != a['alpha'] or len(log) != iters or len(a['loss']) - 1 != iters:
+        viol_cap('correspondence', f'model: {o["restarts"]} restarts, final activation alpha {dec_f(o["alpha"])}, {len(log)} iterations; implementation: '
+                 f'{len(att) - 1} restarts, alpha {a["alpha"]}, {len(a["loss"]) - 1} iterations', rp, 'local:ctl:shape')
+        return
+    # step sizes: theta_{t+1} == theta_t - alpha_t * dL_t with the model's alpha_t (same float operations: exact)
+    for t, (tt, l, al, worse) in enumerate(log):
+        if dec_f(l) != a['loss'][t + 1] and not (math.isnan(dec_f(l)) and math.isnan(a['loss'][t + 1])):
+            viol_cap('correspondence', f'iteration {t}: model reads loss {dec_f(l)!r}, implementation {a["loss"][t + 1]!r}', rp, 'local:ctl:loss')
+            return
+        want = a['theta'][t] - dec_f(al) * a['dL'][t + 1]
+        if not same_vec(want, a['theta'][t + 1]):
+            viol_cap('correspondence', f'iteration {t}: the potentials passed to the oracle are not theta - alpha*dL with the model\'s alpha = {dec_f(al)!r} '
+                     f'(loss rose: {worse})', dict(rp, iteration=t), 'local:ctl:step')
+            return
+    post = len(a['theta']) - 1 - iters
+    if o['post'] != post:
+        viol_cap('correspondence', f'model makes {o["post"]} extra oracle calls for feasibility, implementation {post} (feasibilities {a["feas"][:5]}…)', rp, 'local:ctl:post')
+        return
+    for j in range(post):
+        if not same_vec(a['theta'][iters + 1 + j], a['theta'][iters]):
+            viol_cap('correspondence', f'extra oracle call {j} uses different potentials', rp, 'local:ctl:post-theta')
+            return
+    if has and dec_f(o['damping']) != float(model.damping):
+        viol_cap('correspondence', f'model damping after the call {dec_f(o["damping"])!r}, implementation {float(model.damping)!r}', rp, 'local:ctl:damping')
+        return
+    if dec_f(o['l']) != a['loss'][-1] and not math.isnan(a['loss'][-1]):
+        viol_cap('correspondence', f'returned loss: model {dec_f(o["l"])!r}, implementation {a["loss"][-1]!r}', rp, 'local:ctl:l')
+        return
+    if model.marginals is not a['mu'][-1] or not same_vec(model.potentials, a['theta'][-1]):
+        viol_cap('failing-input', 'model.marginals / model.potentials after estimate are not the last oracle call\'s output / input', rp, 'local:ctl:result')
+        return
+    res.count('control traces agreeing with the model')
+    res.count(f'restarts:{min(len(att) - 1, 5)}{"+" if len(att) > 6 else ""}')
+    if any(e[3] for e in log):
+        res.count('traces with a late (t>50) step halving')
+    if post:
+        res.count('traces with extra feasibility calls')
+
+
+def run_local(dom, meas, total, oracle, iters, record=False, control=True):
     from mbi import LocalInference
     d = rggen.mk_domain(dom)
     eng = LocalInference(d, marginal_oracle=oracle, iters=iters)
     out = {'exc': None, 'rec': None}
     rec = Recorder() if record else None
-    if rec:
+    ctl = Control() if control else None
+    out['ctl'] = ctl
+    if ctl:
+        ctl.install(eng)
+    if rec or ctl:
         orig_setup = eng._setup
 
         def setup(m, t):
             orig_setup(m, t)
-            rec.wrap(eng.model)
+            if rec:
+                rec.wrap(eng.model)
+            if ctl:
+                ctl.wrap_model(eng.model)
         eng._setup = setup
     t0 = time.time()
     try:
@@ -302,6 +485,7 @@ def one_case(res, drv, r, tier, viol_cap, idx, budget_left):
             got = check_run(res, canon, dom, cl, meas, total, oracle, iters, out, viol_cap)
             if got:
                 results[(oracle, iters)] = got
+            check_control(res, drv, out, iters, viol_cap, canon)
             if record and idx % 2 == 0:
                 replay_oracle_calls(res, drv, dom, oracle, out, viol_cap, canon)
     if disjoint(cl) and results and total is not None:
@@ -359,6 +543,7 @@ def replay(res, drv, rp):
             got = check_run(res, canon, dom, cl, meas, total, oracle, iters, out, viol_cap)
             if got:
                 results[(oracle, iters)] = got
+            check_control(res, drv, out, iters, viol_cap, canon)
             if drv is not None and iters <= 60:
                 replay_oracle_calls(res, drv, dom, oracle, out, viol_cap, canon)
     if disjoint(cl) and results and total is not None:
